@@ -163,3 +163,10 @@ def skel_cases(ctx):
     """spec/FamSkel.tla: every control skeleton of up to 2 (thorough: 3) constructs, nested and sequenced in every way, with no jump or one break /
     continue at the end of any one block inside a loop (ids skel/<size>/<jump>/<top|func>/<structure code>)"""
     return ctx.tlc_family("FamSkel", constants={"Tier": '"%s"' % ctx.tier}, timeout=3000)
+
+
+def hist_cases(ctx, part=None):
+    """spec/FamHist.tla: run-time histories - one function called with every sequence of arguments, a loop entered again after every pattern of
+    breaks / continues, six-iteration loops (ids hist/<calls|loops|loopsfn|iter>/...)"""
+    fam = ctx.tlc_family("FamHist", constants={"Tier": '"%s"' % ctx.tier}, timeout=3000)
+    return [c for c in fam if part is None or c["id"].split("/")[1] in part]
